@@ -47,6 +47,33 @@ def forRangeRet {ρ σ} (lo hi : Int) (f : Int → σ → Option ρ × σ) (s : 
       | some _ => acc
       | none => f (lo + (k : Int)) acc.2) (none, s)
 
+/-! ### checked variants (translator T6, `<name>_ok`): requirements -/
+/-- the value that a computation collapses to when a requirement fails -/
+class HasFail (α : Type) where
+  fail : α
+instance : HasFail Bool := ⟨false⟩
+/-- inside a loop body of a checked variant: "return false from the function" -/
+instance {σ} [Inhabited σ] : HasFail (Option Bool × σ) := ⟨(some false, default)⟩
+/-- `req c k`: continue with `k` only if the requirement `c` holds -/
+@[inline] def req {α} [HasFail α] (c : Bool) (k : α) : α := if c then k else HasFail.fail
+/-- `x[i]` does not panic -/
+@[inline] def inRange {α} (l : List α) (i : Int) : Bool := decide (0 ≤ i ∧ i < (l.length : Int))
+/-- `x[lo:hi]` does not panic (judged against the length: for arrays exact, for slices conservative — Go allows
+    `hi` up to the capacity) -/
+@[inline] def sliceOk {α} (l : List α) (lo hi : Int) : Bool := decide (0 ≤ lo ∧ lo ≤ hi ∧ hi ≤ (l.length : Int))
+
+/-- `forRange` variants whose body may return (or, in checked variants, fail) -/
+def forRangeNRet {ρ σ} (lo hi : Nat) (f : Nat → σ → Option ρ × σ) (s : σ) : Option ρ × σ :=
+  (List.range (hi - lo)).foldl
+    (fun (acc : Option ρ × σ) (k : Nat) => match acc.1 with
+      | some _ => acc
+      | none => f (lo + k) acc.2) (none, s)
+def forDownRet {ρ σ} (hi lo : Int) (f : Int → σ → Option ρ × σ) (s : σ) : Option ρ × σ :=
+  (List.range (hi - lo + 1).toNat).foldl
+    (fun (acc : Option ρ × σ) (k : Nat) => match acc.1 with
+      | some _ => acc
+      | none => f (hi - (k : Int)) acc.2) (none, s)
+
 /-- the same with an unsigned loop variable. -/
 def forRangeN {σ} (lo hi : Nat) (f : Nat → σ → σ) (s : σ) : σ :=
   (List.range (hi - lo)).foldl (fun s (k : Nat) => f (lo + k) s) s
@@ -143,6 +170,8 @@ def setString (s : String) (base : Int) : Int × Bool :=
   | '-' :: cs => match decDigits cs with | some n => (-(n : Int), true) | none => (0, false)
   | '+' :: cs => match decDigits cs with | some n => ((n : Int), true) | none => (0, false)
   | cs => match decDigits cs with | some n => ((n : Int), true) | none => (0, false)
+/-- `x.FillBytes(buf)` does not panic: `|x|` fits into `len(buf)` bytes -/
+def fillOk (x : Int) (buf : Bytes) : Bool := decide (x.natAbs < 256 ^ buf.length)
 /-- `z.ModInverse(g, n)` for prime `n` (`g` is reduced first; `g ≡ 0` has no inverse: `nil`, `z` unchanged). -/
 def modInverse (g n : Int) : Option Int :=
   let r := imod g n.toNat
